@@ -45,6 +45,7 @@ CHECKS = {
         "runs": [
             {"pkg": "pure", "run": "^TestC12(Invert|Unregistered|PipeReuse)$", "quick": 1500, "thorough": 60000, "shards_thorough": 6},
             {"pkg": "pure", "run": "^TestC12Corruption$", "quick": 150, "thorough": 4000, "shards_thorough": 4},
+            {"pkg": "pure", "run": "^TestC12Registry$", "quick": 400, "thorough": 8000},
             {"pkg": "thriftw", "run": "^TestC12ThriftUnregistered$", "quick": 200, "thorough": 5000},
             {"pkg": "core", "run": "^TestC12ReplyPipe$", "quick": 600, "thorough": 30000, "shards_thorough": 4},
             {"pkg": "pure", "run": "^TestC12CorruptionExhaustive$", "quick": 1, "thorough": 1, "only": "thorough", "rapid": False},
